@@ -13,7 +13,9 @@ torch.set_num_threads(1)
 def leaf_gradient_check(model, C, D, classes, rs):
     """every induced sub-circuit uses each pixel exactly once: for each class output y and pixel (c,r,col),
     sum over the base batch channels of d y / d (leaf log-density) = 1"""
-    x = torch.tensor(rs.randn(1, C, D, D)).float()
+    import copy
+    model = copy.deepcopy(model).double()      # the identity is exact; in float32 log-densities of magnitude 1e5 (narrow leaves) lose 1e-3
+    x = torch.tensor(rs.randn(1, C, D, D)).double()
     z = model.base_layer(x).detach().requires_grad_(True)
     y = z
     for layer in model.layers:
@@ -23,7 +25,7 @@ def leaf_gradient_check(model, C, D, classes, rs):
     for k in range(out.shape[1]):
         g, = torch.autograd.grad(out[0, k], z, retain_graph=True)
         tot = g[0].reshape(-1, C, D, D).sum(dim=0) if g[0].dim() == 4 else g[0].sum(dim=0)
-        worst = max(worst, float((tot - 1.0).abs().max()))
+        worst = max(worst, float((tot - 1.0).abs().max().detach()))
     return worst
 
 
@@ -73,14 +75,17 @@ def run(ctx):
         rs = np.random.RandomState(np_seed(ctx.sub_rng('cfg', D, p, str(dw))))
         C = int(rs.randint(1, 4)) if D <= 8 else 1
         classes = int(rs.randint(1, 4))
-        rep = dict(kind='c17', C=C, D=D, n_pooling=p, depthwise=dw, classes=classes)
+        nb, sc = int(rs.randint(1, 4)), int(rs.randint(1, 4))         # leaf batch size and sum channels, 1 included
+        pseed = int(rs.randint(10 ** 6))
+        rep = dict(kind='c17', C=C, D=D, n_pooling=p, depthwise=dw, classes=classes, n_batch=nb, sum_channels=sc, pseed=pseed)
         ctx.case('config', nontrivial_key=json.dumps(rep), sample=rep)
+        ctx.count(f'n_batch={nb},sum_channels={sc}')
         ctx.count(f'pooling={p}')
         ctx.count('side-power-of-two' if D & (D - 1) == 0 else 'side-not-power-of-two')
         # (1) the property on the implementation
-        torch.manual_seed(int(rs.randint(10 ** 6)))
+        torch.manual_seed(pseed)
         try:
-            model = DgcSpn((C, D, D), out_classes=classes, n_batch=2, sum_channels=2, depthwise=(list(dw) if isinstance(dw, list) else dw), n_pooling=p)
+            model = DgcSpn((C, D, D), out_classes=classes, n_batch=nb, sum_channels=sc, depthwise=(list(dw) if isinstance(dw, list) else dw), n_pooling=p)
         except Exception as ex:
             ctx.count('constructor-rejects')
             continue
@@ -147,8 +152,12 @@ def run(ctx):
 
 def replay(rep):
     r = rep['replay']
-    model = DgcSpn((r['C'], r['D'], r['D']), out_classes=r['classes'], n_batch=2, sum_channels=2, depthwise=r['depthwise'], n_pooling=r['n_pooling'])
+    torch.manual_seed(r.get('pseed', 0))
+    model = DgcSpn((r['C'], r['D'], r['D']), out_classes=r['classes'], n_batch=r.get('n_batch', 2), sum_channels=r.get('sum_channels', 2),
+                   depthwise=r['depthwise'], n_pooling=r['n_pooling'])
     model.eval()
+    for prm in model.parameters():
+        prm.data.normal_()
     with torch.no_grad():
         z = model(torch.full((1, r['C'], r['D'], r['D']), float('nan')))
     print('all-missing log-probability', z.tolist())
